@@ -30,6 +30,7 @@ EXTRA_SOURCES = ['Alpaqa/Model/Zerofpr.lean', 'Alpaqa/Proofs/ZerofprInv.lean',
                  'Alpaqa/Proofs/ZerofprExample.lean',
                  'Alpaqa/Proofs/ZerofprStep.lean', 'Alpaqa/Proofs/ZerofprFuel.lean',
                  'Alpaqa/Proofs/ZerofprTicks.lean', 'Alpaqa/Proofs/ZerofprChain.lean',
+                 'Alpaqa/Proofs/ZerofprSized.lean', 'Alpaqa/Proofs/ZerofprDoc.lean',
                  'Alpaqa/Proofs/ProxContract.lean',
                  'Alpaqa/Gen/C05.lean', 'Alpaqa/Gen/C06.lean', 'Driver/LoopZerofpr.lean']
 GEN_SCRIPTS = ['gen_c05.py', 'gen_c06.py']
